@@ -66,7 +66,46 @@ def cleared_case(rep, drv, rnd, i):
         rep.nontriv(scen.norm([scen.ops_json(ops[:1]), [q[1] for q in qs]]))
 
 
+def nonlinear_case(rep, drv, rnd, i):
+    """= and \\= on terms in which a variable occurs twice, or two variables are aliased before the test:
+    whether such terms unify cannot be judged argument by argument"""
+    atoms = ['a', 'b', 'c']
+    A = lambda: ('A', rnd.choice(atoms))
+
+    def shape(x, y):
+        k = rnd.randrange(5)
+        if k == 0:
+            return ('F', 'f', [x, y])
+        if k == 1:
+            return ('L', [x, y, A()])
+        if k == 2:
+            return ('P', [x, y], ('_',))
+        if k == 3:
+            return ('F', 'g', [('F', 'h', [x]), ('L', [y])])
+        return ('F', 'f', [x, ('F', 'k', [y, A()])])
+    prog = [('it', [('A', a)], 'tru') for a in atoms]
+    tests = []
+    for n in range(rnd.randint(4, 7)):
+        a1, a2 = A(), A()
+        pat = shape(V('X'), V('X')) if rnd.random() < 0.6 else shape(V('X'), V('Y'))
+        # the same shape with constants (rebuild with the same random choices is not needed: only unifiability matters)
+        other = rnd.choice([shape(a1, a2), shape(a1, a1), shape(V('Z'), a2)])
+        op = rnd.choice(['\\=', '\\=', '='])
+        pre = rnd.choice(['tru', ('call', '=', [V('X'), V('Y')]), ('call', '=', [V('Y'), V('X')]), ('call', 'it', [V('X')])])
+        goal = ('call', op, [pat, other])
+        body = ('conj', pre, ('conj', goal, ('call', '=', [V('R'), ('A', 'passed')])))
+        tests.append(('n%d' % n, [V('X'), V('Y'), V('R')], body, True))
+    prog += tests
+    ops = [('load', 'overwrite', prog)]
+    ops += [('query', t[0], ('all',), [[Sym('v'), 0], [Sym('v'), 1], [Sym('v'), 2]]) for t in tests]
+    rep.count('non-linear-eq-neq')
+    if scen.three_way(rep, drv, ops, 'case %d non-linear' % i) == 'ok':
+        rep.nontriv(scen.norm(scen.ops_json(ops[:1])))
+
+
 def case(rep, drv, rnd, i, tier):
+    if i % 16 == 11:
+        return nonlinear_case(rep, drv, rnd, i)
     if i % 8 == 7:
         return committed_goal_case(rep, drv, rnd, i)
     if i % 16 == 3:
@@ -83,7 +122,7 @@ def run(tier):
                         'bound earlier in the body or through a chain of variables, extra arguments, one goal term called twice), '
                         'once/1, findall/3, = and \\= (incl. same-name structures of different arity) with goals that have 0-3 '
                         'solutions; one case in eight: meta-calls on goals whose answers come from clauses ending in a cut, with a '
-                        'second definition chained behind; one case in sixteen: the same programs after clear() and a reload; any exception escaping a query is a violation; non-trivial = the '
+                        'second definition chained behind; one case in sixteen: = and \\= on non-linear and aliased terms; one case in sixteen: the same programs after clear() and a reload; any exception escaping a query is a violation; non-trivial = the '
                         'reference yields >= 1 answer; distinct = distinct (program, query)')
 
 
